@@ -104,21 +104,29 @@ ReadEv ==
   /\ UNCHANGED <<sc, out, scan, rem, written, run, provided, requested, faulted, nscen, nok, expect, unused>>
 
 \* ---- a write to the output: Clone's WriteRule (C13), then Clone's WriteOut effect
+\* A write that breaks the discipline is recorded but does not end the scenario: the model's file keeps following the real
+\* one, so that what the broken write leads to (wrong final content, a fetch of something reusable) is still judged.
+FlagSoft(rule) ==
+  /\ verdicts' = IF nverdicts < MaxVerdicts
+                 THEN Append(verdicts, [scenario |-> nscen, line |-> l, run |-> run, rule |-> rule])
+                 ELSE verdicts
+  /\ nverdicts' = nverdicts + 1
+  /\ UNCHANGED skipping
 WriteEv ==
   /\ Step("write")
   /\ IF Ev.off = -1 THEN Flag("W1: write is not unit aligned (not a whole source chunk)") /\ UNCHANGED <<out, rem, written, faulted>>
      ELSE LET c == Cells(Ev.cells)
-              rule == WriteRule(sc, scan, written, Ev.off, c) IN
-          IF rule # "ok" THEN Flag(rule) /\ UNCHANGED <<out, rem, written, faulted>>
-          ELSE IF Ev.fault = 0
+              rule == WriteRule(sc, scan, written, Ev.off, c)
+              id == ChunkOf(sc, c) IN
+          IF Ev.fault = 0
           THEN /\ out' = WriteAt(out, Ev.off, c)
-               /\ rem' = [rem EXCEPT ![ChunkOf(sc, c)] = @ \ {Ev.off}]
+               /\ rem' = IF id # 0 THEN [rem EXCEPT ![id] = @ \ {Ev.off}] ELSE rem
                /\ written' = written \cup {Ev.off}
-               /\ NoFlag /\ UNCHANGED faulted
+               /\ (IF rule = "ok" THEN NoFlag ELSE FlagSoft(rule)) /\ UNCHANGED faulted
           ELSE \* injected fault: only what the file holds afterwards counts (TornWrite of Clone.tla)
                /\ out' = WriteAt(out, Ev.off, Cells(Ev.after))
                /\ faulted' = TRUE
-               /\ NoFlag /\ UNCHANGED <<rem, written>>
+               /\ (IF rule = "ok" THEN NoFlag ELSE FlagSoft(rule)) /\ UNCHANGED <<rem, written>>
   /\ UNCHANGED <<sc, scan, run, provided, requested, nscen, nok, expect, unused>>
 
 \* ---- end of in-place reordering: every reusable chunk has been placed (C03 / C06)
